@@ -18,7 +18,7 @@ ASSUMPTIONS = ["torch's own accept / reject verdict on the dense operand is the 
 REQUIRED_STATS = ("judged",)
 
 OPS = ["matmul", "rmatmul", "solve", "inv_quad", "inv_quad_logdet", "add_tensor", "add_op", "sub_tensor", "mul_tensor", "mul_op",
-       "add_diagonal", "cat", "expand", "getitem_int", "getitem_tensor", "getitem_list", "square_only"]
+       "add_diagonal", "cat", "expand", "getitem_int", "getitem_tensor", "getitem_list", "square_only", "matmul_op", "matmul_op"]
 
 
 def gen_cases(ctx):
@@ -29,7 +29,7 @@ def gen_cases(ctx):
         root = classes[i % len(classes)]
         i += 1
         op = rng.choice(OPS)
-        n = rng.choice([2, 3, 4, 5])
+        n = rng.choice([2, 3, 4, 5, 6] if op == "matmul_op" else [2, 3, 4, 5])
         kind = rng.choice(["pd", "psd", "square", "rect", "sym"])
         if op in ("solve", "inv_quad", "inv_quad_logdet", "add_diagonal"):
             kind = "pd"
@@ -43,7 +43,7 @@ def gen_cases(ctx):
         yield dict(spec=spec, op=op, rseed=rng.randrange(1 << 30), debug=True if ctx.tier == "quick" else rng.random() < 0.8)
 
 
-def _bad_operand(rng, op, dense, g):
+def _bad_operand(rng, op, dense, g, spec=None, opobj=None):
     """-> list of (badness, lib_call(opobj), dense_call()) candidates"""
     from linear_operator import operators as O
 
@@ -134,6 +134,32 @@ def _bad_operand(rng, op, dense, g):
                 other = torch.tensor([0, 0])
                 idx2 = tuple([slice(None)] * pos + [comp, other])
                 out.append((f"{bad}@{where}+pair", (lambda o, idx=idx2: o[idx]), (lambda idx=idx2: dense[idx])))
+    elif op == "matmul_op" and spec is not None:
+        # operator @ operator with an inner-dimension mismatch; the second operand of the same class (structured fast paths) or dense
+        for n2 in [x for x in (1, 2, 3, 4, 6, 8) if x != m][:4]:
+            for root in (spec["cls"], "Dense"):
+                for b2 in ([batch] if not batch else [batch, []]):
+                    sp2 = zoo.gen_spec(rng, "square" if root != spec["cls"] else rng.choice(["square", "pd"]), n2, n2, b2, depth=1, dtype=spec["dtype"], root=root)
+                    if sp2 is None:
+                        continue
+                    try:
+                        o2 = zoo.build(sp2)
+                    except Exception:  # noqa: BLE001
+                        continue
+                    lab = ("same_class" if root == spec["cls"] else "dense") + ("" if b2 == batch else "_unbatched")
+                    out.append((f"inner_mismatch:{lab}", (lambda o, o2=o2: o @ o2.op), (lambda o2=o2: dense @ o2.dense)))
+                    out.append((f"inner_mismatch:{lab}/torch.matmul", (lambda o, o2=o2: torch.matmul(o, o2.op)), (lambda o2=o2: dense @ o2.dense)))
+        # block operators: a second operand with the same block size but a single block (its block dimension has size 1 and would
+        # broadcast), and one whose batch dimension lines up with the block dimension
+        if opobj is not None and type(opobj).__name__ in ("BlockDiagLinearOperator", "BlockInterleavedLinearOperator") and m == n:
+            bs = opobj.base_linear_op.shape[-1]
+            nb = opobj.base_linear_op.shape[-3]
+            if nb > 1:
+                for lab, shp in (("one_block", [*batch, 1, bs, bs]), ("block_dim_as_batch", [nb, 1, bs, bs])):
+                    t = randn(*shp)
+                    o2 = type(opobj)(O.DenseLinearOperator(t))
+                    d2 = o2.to_dense()
+                    out.append((f"inner_mismatch:{lab}", (lambda o, o2=o2: o @ o2), (lambda d2=d2: dense @ d2)))
     elif op == "square_only":
         out.append(("rect:solve", (lambda o: o.solve(randn(n, 1))), (lambda: torch.linalg.solve(dense, randn(*batch, n, 1)))))
         out.append(("rect:logdet", (lambda o: o.logdet()), (lambda: torch.logdet(dense))))
@@ -160,7 +186,7 @@ def run_case(case, ctx):
     tags0 = common.spec_tags(spec)
     info = common.spec_info(spec) | ({"debug_off"} if not case["debug"] else set())
     with settings.debug(case["debug"]):
-        for bad, libcall, densecall in _bad_operand(rng, op, b.dense, g):
+        for bad, libcall, densecall in _bad_operand(rng, op, b.dense, g, spec, b.op):
             _, exd = compare.attempt(densecall)
             if exd is None:
                 ctx.stat("torch_accepts(not judged)")
